@@ -6,6 +6,7 @@
        [k |-> "cas", op, a, d]                  register d op= register a                (compound assignment)
        [k |-> "neg", a, d]                      register d := - register a
        [k |-> "mov", a, d]                      register d := register a                 (plain assignment / conversion)
+       [k |-> "expr", op, a, b, d]              register d := a two-operator expression of registers a and b (op in CompositeOps)
        [k |-> "cmp", a, b]                      the six comparisons of two registers      (no state change)
        [k |-> "fromint", r, vi]                 register r := its type constructed from built-in integer number vi
        [k |-> "toflt", a]                       register a converted to double            (no state change)
@@ -38,6 +39,10 @@ NegStep == \E a \in loaded, d \in 1..NRegs :
 MovStep == \E a \in loaded, d \in 1..NRegs :
             /\ hist' = Append(hist, [k |-> "mov", a |-> a, d |-> d])
             /\ loaded' = loaded \cup {d}
+CompositeOps == {"neg_add", "neg_sub", "neg_mul", "mul_add", "mul_sub", "add_mul", "sub_mul"}
+ExprStep == \E op \in CompositeOps, a \in loaded, b \in loaded, d \in 1..NRegs :
+            /\ hist' = Append(hist, [k |-> "expr", op |-> op, a |-> a, b |-> b, d |-> d])
+            /\ loaded' = loaded \cup {d}
 CmpStep == \E a \in loaded, b \in loaded :
             /\ hist' = Append(hist, [k |-> "cmp", a |-> a, b |-> b])
             /\ UNCHANGED loaded
@@ -55,7 +60,7 @@ ToFlt == \E a \in loaded :
             /\ UNCHANGED loaded
 Next == /\ Len(hist) < Depth
         /\ IF Len(hist) < 2 THEN Load
-           ELSE (Load \/ Step \/ Step \/ Step \/ Cas \/ NegStep \/ MovStep \/ CmpStep \/ FromInt \/ FromFlt \/ ToFlt \/ IncDec)
+           ELSE (Load \/ Step \/ Step \/ Step \/ Cas \/ NegStep \/ MovStep \/ ExprStep \/ ExprStep \/ CmpStep \/ FromInt \/ FromFlt \/ ToFlt \/ IncDec)
 Spec == Init /\ [][Next]_<<hist, loaded>>
 Emit == Len(hist) = Depth => CSVWrite("%1$s", <<ToJson(hist)>>, Out)
 =============================================================================
